@@ -10,7 +10,7 @@ import sj
 
 PROP = 'C11'
 THEOREMS = ['C11_names_grammar', 'C11_union_rules', 'C11_enum_rules', 'C11_fixed_rules', 'C11_record_rules',
-            'C11_default_conforms', 'C11_duplicate_definition_refuted', 'C11_unresolvable_reference_refuted', 'C11_examples']
+            'C11_default_conforms', 'C11_duplicate_definition_refuted', 'C11_unresolvable_reference_refuted', 'C11_union_bigdecimal_refuted', 'C11_examples']
 RULE = ('texts: arbitrary strings, arbitrary JSON, generated well-formed schema texts and 2 JSON-level mutations of each '
         '(dropped / retyped / added keys, wrong JSON kinds, extreme numbers, duplicated elements). non-trivial = distinct '
         'mutated texts the parser accepts or rejects in agreement with the model')
@@ -49,6 +49,21 @@ def gen(tier, seed):
                    {'type': 'record', 'name': 'R', 'fields': [{'name': 'f', 'type': 'int', 'aliases': [nm_]}]},
                    {'type': 'enum', 'name': 'E', 'symbols': ['A', nm_]}):
             texts['kn%d' % q] = json.dumps(js, ensure_ascii=False); meta['kn%d' % q] = 'mutant'; q += 1
+    # unions: no two unnamed branches of the same underlying type, a logical type counting as its underlying type
+    lg = lambda base, name, **kw: dict({'type': base, 'logicalType': name}, **kw)
+    same = [('bytes', lg('bytes', 'uuid')), ('bytes', lg('bytes', 'decimal', precision=4)), ('bytes', lg('bytes', 'big-decimal')),
+            ('string', lg('string', 'uuid')), ('int', lg('int', 'date')), ('int', lg('int', 'time-millis')), ('long', lg('long', 'time-micros')),
+            ('long', lg('long', 'timestamp-millis')), ('long', lg('long', 'timestamp-micros')), ('long', lg('long', 'timestamp-nanos')),
+            ('long', lg('long', 'local-timestamp-millis')), ('long', lg('long', 'local-timestamp-micros')), ('long', lg('long', 'local-timestamp-nanos')),
+            (lg('bytes', 'uuid'), lg('bytes', 'decimal', precision=4)), (lg('int', 'date'), lg('int', 'time-millis')),
+            (lg('long', 'time-micros'), lg('long', 'timestamp-nanos')), ({'type': 'array', 'items': 'int'}, {'type': 'array', 'items': 'string'}),
+            ({'type': 'map', 'values': 'int'}, {'type': 'map', 'values': 'string'}), ('null', 'null'), (['int'], 'string')]
+    for q, (a, b) in enumerate(same):
+        for order in ((a, b), (b, a)):
+            texts['ku%d_%d' % (q, order is not (a, b))] = json.dumps(list(order) if q < len(same) - 1 else [order[0], order[1]])
+            meta['ku%d_%d' % (q, order is not (a, b))] = 'mutant'
+        texts['kv%d' % q] = json.dumps({'type': 'record', 'name': 'U', 'fields': [{'name': 'f', 'type': {'type': 'array', 'items': ['null', a, b]}}]})
+        meta['kv%d' % q] = 'mutant'
     for i in range(n):
         r = rng.fork(i)
         js = schematext.gen_schema_json(r, max_depth=r.choice([1, 2, 2, 3]), weird=False)
@@ -148,6 +163,40 @@ def bad_names(s, out):
         bad_names(s[1], out)
     return out
 
+_BASE = {'date': 'int', 'time-millis': 'int', 'time-micros': 'long', 'timestamp-millis': 'long', 'timestamp-micros': 'long', 'timestamp-nanos': 'long',
+         'local-timestamp-millis': 'long', 'local-timestamp-micros': 'long', 'local-timestamp-nanos': 'long', 'big-decimal': 'bytes'}
+
+def base_kind(s):
+    """underlying unnamed type of a schema term, None for named types and references"""
+    t = s if isinstance(s, str) else tag(s)
+    if t in ('record', 'enum', 'fixed', 'ref', 'duration'):
+        return None
+    if t == 'decimal':
+        return 'bytes' if tag(s[3]) == 'bytes' else None
+    if t == 'uuid':
+        return tag(s[1]) if tag(s[1]) in ('string', 'bytes') else None
+    if t == 'bigdecimal':
+        return 'bytes'
+    return _BASE.get(t, t)
+
+def dup_union_kinds(s, out, ignore=()):
+    if isinstance(s, str):
+        return out
+    t = tag(s)
+    if t == 'union':
+        kinds = [k for k in (base_kind(b) for b in s[1:] if tag(b) not in ignore) if k is not None]
+        d = sorted({k for k in kinds if kinds.count(k) > 1})
+        if d:
+            out.append(d)
+        for b in s[1:]:
+            dup_union_kinds(b, out, ignore)
+    elif t == 'record':
+        for f in s[4][1:]:
+            dup_union_kinds(f[5], out, ignore)
+    elif t in ('array', 'map'):
+        dup_union_kinds(s[1], out, ignore)
+    return out
+
 def strip_defaults(js):
     if isinstance(js, list):
         return [strip_defaults(x) for x in js]
@@ -197,6 +246,12 @@ def judge(run, texts, meta, parsed, rt, model):
                 for name, x in (('serialise', r[2]), ('canonical-form', r[4]), ('debug', r[5]), ('resolve-names', r[6])):
                     if not isinstance(x, str) and tag(x) == 'panic':
                         run.fail('operation-panic', '%s panicked on an accepted schema' % name, case)
+                du = dup_union_kinds(res[1], [])
+                if du:
+                    # known (F56): big-decimal is not counted as bytes by the union builder; everything else is reported
+                    only_bigdec = faithful and not dup_union_kinds(res[1], [], ignore=('bigdecimal',))
+                    run.fail('union-bigdecimal-next-to-bytes-accepted' if only_bigdec else 'union-same-type-twice-accepted',
+                             'a union of an accepted schema has two unnamed branches of the same underlying type (%s)' % du[:2], case)
                 bn = bad_names(res[1], [])
                 if bn:
                     run.fail('malformed-name-accepted', 'name(s) %s of an accepted schema are outside [A-Za-z_][A-Za-z0-9_]*' % bn[:3], case)
